@@ -152,4 +152,62 @@ theorem mapV_noPanic [FloatLike α] (hfin : ∀ x : α, FloatLike.isFinite x = t
             rw [hr]; rfl
   exact this A.init xs os hx hos
 
+/-- a combining node whose function is total on the values its children report (Add, Subtract, Multiply; Divide away from a
+zero divisor) never panics when its children do not -/
+theorem binop_noPanic [FloatLike α] (hfin : ∀ x : α, FloatLike.isFinite x = true) (f : α → α → M α)
+    (hf : ∀ a b, ∃ r, f a b = .ok r) (A B : View α) (hA : A.NoPanic) (hB : B.NoPanic) : (binop f A B).NoPanic := by
+  have hl : ∀ (a : A.σ) (b : B.σ), (∃ o, A.last a = .ok o) → (∃ o, B.last b = .ok o) →
+      ∃ o, (binop f A B).last (a, b) = .ok o := by
+    intro a b ⟨oa, hoa⟩ ⟨ob, hob⟩
+    cases oa with
+    | none => exact ⟨none, by cases ob <;> simp [hoa, hob, bind, Except.bind, pure, Except.pure]⟩
+    | some va =>
+      cases ob with
+      | none => exact ⟨none, by simp [hoa, hob, bind, Except.bind, pure, Except.pure]⟩
+      | some vb =>
+        obtain ⟨r, hr⟩ := hf va vb
+        exact ⟨some r, by simp [hoa, hob, bind, Except.bind, pure, Except.pure, assertFinite_ok (hfin va),
+          assertFinite_ok (hfin vb), hr]⟩
+  refine ⟨hl _ _ hA.1 hB.1, fun xs hx => ?_⟩
+  obtain ⟨osa, hosa⟩ := hA.2 xs hx
+  obtain ⟨osb, hosb⟩ := hB.2 xs hx
+  have : ∀ (a : A.σ) (b : B.σ) (ys : List α) (osa osb : List (Option α)), AllFinite ys → A.trace a ys = .ok osa →
+      B.trace b ys = .ok osb → ∃ r, (binop f A B).trace (a, b) ys = .ok r := by
+    intro a b ys
+    induction ys generalizing a b with
+    | nil => intro _ _ _ _ _; exact ⟨[], rfl⟩
+    | cons y ys ih =>
+      intro osa osb hy ha hb
+      rw [trace_cons] at ha hb
+      cases hua : A.upd a y with
+      | error e => simp [hua, bind, Except.bind] at ha
+      | ok a' =>
+        cases hub : B.upd b y with
+        | error e => simp [hub, bind, Except.bind] at hb
+        | ok b' =>
+          cases hla : A.last a' with
+          | error e => simp [hua, hla, bind, Except.bind] at ha
+          | ok oa =>
+            cases hlb : B.last b' with
+            | error e => simp [hub, hlb, bind, Except.bind] at hb
+            | ok ob =>
+              cases hta : A.trace a' ys with
+              | error e => simp [hua, hla, hta, bind, Except.bind] at ha
+              | ok ra =>
+                cases htb : B.trace b' ys with
+                | error e => simp [hub, hlb, htb, bind, Except.bind] at hb
+                | ok rb =>
+                  obtain ⟨r, hr⟩ := ih a' b' ra rb hy.tail hta htb
+                  obtain ⟨o2, ho2⟩ := hl a' b' ⟨oa, hla⟩ ⟨ob, hlb⟩
+                  refine ⟨o2 :: r, ?_⟩
+                  rw [trace_cons]
+                  have hup : (binop f A B).upd (a, b) y = .ok (a', b') := by
+                    simp [binop, assertFinite_ok hy.head, hua, hub, bind, Except.bind, pure, Except.pure]
+                  rw [hup]
+                  show ((binop f A B).last (a', b') >>= fun o => (binop f A B).trace (a', b') ys >>= fun r => pure (o :: r)) = _
+                  rw [ho2]
+                  show ((binop f A B).trace (a', b') ys >>= fun r => pure (o2 :: r)) = _
+                  rw [hr]; rfl
+  exact this A.init B.init xs osa osb hx hosa hosb
+
 end SF
